@@ -984,56 +984,70 @@ impl<'a> Explorer<'a> {
                     }
                 }
             }
-            let locals: Vec<Local> = par_map(&items, cfg.threads, |&(id, lo, hi)| {
-                // a panic here is a panic of the harness (those of the code under test are caught
-                // per call); it can be the consequence of memory corrupted by the code under test
-                match std::panic::catch_unwind(std::panic::AssertUnwindSafe(|| self.expand(id, lo, hi))) {
-                    Ok(l) => l,
-                    Err(e) => {
-                        let mut l = Local::default();
-                        l.stats = Stats::new();
-                        l.vios.add(Violation { prop: "MACHINERY".into(), kind: "harness-panic".into(), msg: format!("harness panicked while expanding a state of {}: {}", self.cfg.label(), crate::imp::panic_msg(e)), replay: J::obj() });
-                        l
-                    }
-                }
-            });
-            let mut next = vec![];
+            let mut next: Vec<u32> = vec![];
             let mut class_total = vec![0u64; 300];
-            for l in locals {
-                for (i, c) in l.class_counts.iter() {
-                    if let Some(x) = class_total.get_mut(*i as usize) {
-                        *x += c;
+            // batches bound the transient memory of a level (successors found by many workers)
+            let mut stop_level = false;
+            for batch in items.chunks(1536) {
+                let locals: Vec<Local> = par_map(batch, cfg.threads, |&(id, lo, hi)| {
+                    // a panic here is a panic of the harness (those of the code under test are caught
+                    // per call); it can be the consequence of memory corrupted by the code under test
+                    match std::panic::catch_unwind(std::panic::AssertUnwindSafe(|| self.expand(id, lo, hi))) {
+                        Ok(l) => l,
+                        Err(e) => {
+                            let mut l = Local::default();
+                            l.stats = Stats::new();
+                            l.vios.add(Violation { prop: "MACHINERY".into(), kind: "harness-panic".into(), msg: format!("harness panicked while expanding a state of {}: {}", self.cfg.label(), crate::imp::panic_msg(e)), replay: J::obj() });
+                            l
+                        }
                     }
-                }
-                stats.merge(&l.stats);
-                vios.merge(l.vios);
-                if cfg.or.graph {
-                    self.edges.extend_from_slice(&l.edges);
-                }
-                for s in l.succs {
-                    let to = match s.to {
-                        Ok(i) => i,
-                        Err(k) => match self.index.find(s.hash, |i| *self.keys[i as usize] == *k) {
-                            Some(i) => i,
-                            None => {
-                                let i = self.nodes.len() as u32;
-                                if k.fin {
-                                    stats.finished_states += 1;
-                                }
-                                self.nodes.push(NodeMeta { parent: s.parent, call: s.call.clone(), fresh: s.fresh });
-                                self.keys.push(k.clone());
-                                self.index.insert(s.hash, i);
-                                next.push(i);
-                                i
-                            }
-                        },
-                    };
+                });
+                for l in locals {
+                    for (i, c) in l.class_counts.iter() {
+                        if let Some(x) = class_total.get_mut(*i as usize) {
+                            *x += c;
+                        }
+                    }
+                    stats.merge(&l.stats);
+                    vios.merge(l.vios);
                     if cfg.or.graph {
-                        if let Some(w) = s.weight {
-                            self.edges.push((s.parent, to, w));
+                        self.edges.extend_from_slice(&l.edges);
+                    }
+                    for s in l.succs {
+                        let to = match s.to {
+                            Ok(i) => i,
+                            Err(k) => match self.index.find(s.hash, |i| *self.keys[i as usize] == *k) {
+                                Some(i) => i,
+                                None => {
+                                    let i = self.nodes.len() as u32;
+                                    if k.fin {
+                                        stats.finished_states += 1;
+                                    }
+                                    self.nodes.push(NodeMeta { parent: s.parent, call: s.call.clone(), fresh: s.fresh });
+                                    self.keys.push(k.clone());
+                                    self.index.insert(s.hash, i);
+                                    next.push(i);
+                                    i
+                                }
+                            },
+                        };
+                        if cfg.or.graph {
+                            if let Some(w) = s.weight {
+                                self.edges.push((s.parent, to, w));
+                            }
                         }
                     }
                 }
+                if rss_bytes() > rss_cap_bytes() || self.nodes.len() > cfg.max_states {
+                    stop_level = true;
+                    break;
+                }
+            }
+            if stop_level {
+                stats.exhaustive = false;
+                stats.caps_hit.push(format!("{}: stopped inside depth {} with {} states (memory cap {} GB or state cap {} reached); everything below that depth was explored completely", cfg.label(), depth, self.nodes.len(), rss_cap_bytes() >> 30, cfg.max_states));
+                stats.max_depth = depth as u64;
+                break;
             }
             for (i, c) in class_total.iter().enumerate() {
                 if *c > 0 {
